@@ -71,3 +71,43 @@ def dyadic(rng, lo=-64, hi=64, den_pow=3):
     """random dyadic rational exactly representable as float"""
     d = 1 << rng.randrange(0, den_pow + 1)
     return rng.randrange(lo * d, hi * d + 1) / d
+
+
+import re as _re
+_NUM = _re.compile(r"^-?\d+(/\d+)?$")
+_SPLIT = _re.compile(r"([,:/|\[\]{}; =])")
+
+
+def fuzzy_equal(real, model, tol=1e-9):
+    """token-wise comparison of two canonical lines: integers / rationals are compared numerically
+    with relative tolerance (real side may carry float rounding), everything else exactly.
+    '/' is NOT split when it is part of a rational n/d."""
+    if real == model:
+        return True
+    ra = _tok(real); mo = _tok(model)
+    if len(ra) != len(mo):
+        return False
+    for a, b in zip(ra, mo):
+        if a == b:
+            continue
+        if _NUM.match(a) and _NUM.match(b):
+            fa, fb = Fraction(a), Fraction(b)
+            if abs(float(fa) - float(fb)) <= tol * max(1.0, abs(float(fb))):
+                continue
+        return False
+    return True
+
+
+def _tok(s):
+    # split on delimiters except '/' between digits (rationals)
+    out, cur = [], ""
+    for i, ch in enumerate(s):
+        if ch in ",:|[]{}; =~" or (ch == "/" and not (i > 0 and s[i - 1].isdigit() and i + 1 < len(s) and s[i + 1].isdigit())):
+            if cur:
+                out.append(cur); cur = ""
+            out.append(ch)
+        else:
+            cur += ch
+    if cur:
+        out.append(cur)
+    return out
